@@ -11,7 +11,7 @@ SPELL = ["k", "Kelvin", "ks", "SS", "straße", "été", "ÉTÉ", "i", "Istanbul"
 
 def model(tier):
     cfg = core.workdir("mc_" + PROP) + "/MC_FromStr.cfg"
-    consts = dict(Size=1 if tier == "quick" else 2, Dedup=True, Overlap=False)
+    consts = dict(Size=1 if tier == "quick" else 2, Dedup=True, Overlap=True)
     core.write_cfg(cfg, constants=consts, invariants=["AsciiOnly", "FlagTable", "ExpansionIsSpec"])
     res = core.tlc_mc("MC_FromStr.tla", cfg, "mc_" + PROP, workers=6, timeout=7200, xmx="12g")
     if res["coverage"].get("PushArms", 0) == 0:
@@ -35,6 +35,11 @@ def candidates(rng, n):
             vs = [variant("HTTPServer", aci=2), variant("Kelvin", aci=1), variant("Ks", aci=0), variant("Mask", "tuple", [field("u8")], aci=2)]
             cands.append(enum(did, vs, aci=eaci, style=st))
             did += 1
+    # spellings equal up to case on a case-sensitive and a case-insensitive variant, in both declaration orders that keep
+    # first-match-wins well defined for the plain and the phf-backed parser (PhfConsistent)
+    cands.append(enum(did, [variant("Lower", ser=["mb"]), variant("Upper", ser=["MB"], aci=1), variant("Other")])); did += 1
+    cands.append(enum(did, [variant("Exact", ser=["kb"], aci=0), variant("Any", ser=["Kb"]), variant("Tail", ser=["t"])], aci=True)); did += 1
+    cands.append(enum(did, [variant("A", ser=["ab", "Ab"]), variant("B", ser=["AB"], aci=1), variant("C", ser=["aB"], aci=1)])); did += 1
     for k in range(n):
         E = SC.sample_def(rng, did, nmax=5)
         cands.append(E)
@@ -46,7 +51,8 @@ def run(tier, seed, rep):
     sz = SIZES[tier]
     rng = random.Random(seed * 49979687 + 11)
     r = PC.run_parse_check(PROP, "c12", rep, candidates(rng, sz["sample"]), rng, seed, sz["cap"], sz["flips"],
-                           lambda: model(tier), what="case-insensitive matching differs from the ASCII-only rule")
+                           lambda: model(tier), what="case-insensitive matching differs from the ASCII-only rule",
+                           in_domain=lambda f: f["wf"] and (f["no"] or f["pc"]))
     rep.cov["rule"] = ("definitions = 6 flag combinations (enum flag x variant flag absent/true/false) x %d spellings with ASCII and "
                        "non-ASCII letters, each next to case-sensitive variants, + styled identifiers + seeded samples; inputs = ALL "
                        "2^k case flips for k <= %d letters (sampled above), every Unicode look-alike substitution (KELVIN SIGN, LONG S, "
